@@ -70,7 +70,7 @@ func tableConcat(L *LState) int {
 			L.Push(sep)
 		}
 	}
-	L.Push(stringConcat(L, L.GetTop()-retbottom, L.reg.Top()-1))
+	L.Push(LString(LVAsString(stringConcat(L, L.GetTop()-retbottom, L.reg.Top()-1))))
 	return 1
 }
 
